@@ -13,8 +13,8 @@ META = {
              'rejected writes mixed in and after every recovery of the C01 crash explorer; the harness compares the same dumps '
              'with f(stored documents) computed from its own copy.'),
     'design_ref': 'DESIGN.md section 4 / C02',
-    'note': ('Preservation of Consistent by every live operation outcome (incl. rollback closures) is checked by the monitor at '
-             'every quiescent point, not proved in Coq; proved: recovery establishes it. HNSW: soundness of search results, '
+    'note': ('Proved: recovery establishes Consistent and every completed add/update/remove/flush preserves it; rejected writes '
+             '(rollback closures) and index creation/removal are checked by the monitor at every quiescent point, not proved. HNSW: soundness of search results, '
              'entry count and self-retrieval are checked (recall is C12). Text is tokenised by the implementation (trusted).'),
     'technique': 'Coq proof (derivation model, sound monitor, recovery convergence) + translator-generated orders + correspondence of full index dumps',
 }
@@ -33,7 +33,7 @@ def run(ck):
                  ['--quiescent-only', '--workloads', '6000', '--ops', '26', '--model-every', '150'])
         cargs = (['--workloads', '24', '--ops', '14', '--nested-every', '11', '--nested-all', '--flaky-every', '5',
                   '--backends', 'mem,meta,enc', '--model-every', '24', '--sentinel-every', '6'] if quick else
-                 ['--workloads', '250', '--ops', '20', '--nested-every', '4', '--nested-all', '--nested2', '--flaky-every', '2',
+                 ['--workloads', '120', '--ops', '20', '--nested-every', '5', '--nested-all', '--nested2', '--flaky-every', '2',
                   '--backends', 'mem,meta,enc', '--model-every', '250'])
         dist = {}
         cases = []
